@@ -3,12 +3,28 @@
 import json,os,shutil,glob,re
 os.makedirs('/verif/seeded',exist_ok=True)
 rows=[]
+# latest result per (mutant, check) from the trial logs, in chronological order
+ALL={}
+logs=['wave1a.log','wave1b.log','wave2.log']+sorted([os.path.basename(f) for f in glob.glob('/work/mut_results/retry*.log')], key=lambda n:int(re.search(r'(\d+)',n).group(1)))
+for lg in logs:
+    path='/work/mut_results/'+lg
+    if not os.path.exists(path): continue
+    cur=None; last=None
+    for line in open(path):
+        m=re.match(r'== (m\d+-\d+) ',line)
+        if m: cur=m.group(1); continue
+        m=re.match(r'(C\d+) exit=(\d+) (.*)',line)
+        if m and cur:
+            last=(cur,m.group(1)); ALL.setdefault(cur,{})[m.group(1)]={"exit":int(m.group(2)),"summary":m.group(3).strip(),"signatures":""}
+            continue
+        if last and line.startswith('   ') and line.strip():
+            ALL[last[0]][last[1]]["signatures"]=line.strip()[:600]
 for d in sorted(glob.glob('/work/mut/m*-*')):
     mid=os.path.basename(d)
-    cf=os.path.join(d,'confirm.json'); rf=f'/work/mut_results/{mid}.json'
-    if not os.path.exists(cf) or not os.path.exists(rf): continue
+    cf=os.path.join(d,'confirm.json')
+    if not os.path.exists(cf) or mid not in ALL: continue
     try:
-        conf=json.load(open(cf)); res=json.load(open(rf)); meta=json.load(open(os.path.join(d,'meta.json')))
+        conf=json.load(open(cf)); res=ALL[mid]; meta=json.load(open(os.path.join(d,'meta.json')))
     except Exception as e:
         print('skip',mid,e); continue
     ok = conf.get('builds') and conf.get('demo_passes_without') and conf.get('demo_fails_with') and conf.get('suite_passes_with')
